@@ -158,6 +158,13 @@ def main(run):
                 'lowent': lambda: bytes(rng.choice(b'ab') for _ in range(n))}[kind]()
         traces.append(group(rng, data, make_key(rng), mn, mx, 3 if quick else 8))
         run.case(('rand', i, mn, mx, n, kind), nontrivial=n > mx)
+    # one explicit key used by chunker objects with DIFFERENT bounds in the same process (two repositories sharing a key, a benchmark after a
+    # backup): the cuts are a function of the bytes and of THIS object's parameters
+    shared_key = make_key(rng)
+    for mn, mx in ((64, 256), (500, 10000), (4, 64), (64, 256)):
+        data = rng.randbytes(30_000)
+        traces.append(group(rng, data, shared_key, mn, mx, 2))
+        run.case(('shared-key', mn, mx))
     # realistic sizes: pieces of megabytes (snapshot reads 16 MiB pieces), streams and last pieces that are exact multiples of 1 MiB, cut
     # positions at multiples of MiB - thresholds inside the wrapper (buffer steps, slices) are invisible with pieces of a few bytes
     MiB = 1 << 20
